@@ -1,2 +1,3 @@
 SPECIFICATION Spec
+INVARIANT NoMismatch
 CHECK_DEADLOCK FALSE
